@@ -59,6 +59,7 @@ def plan(tier, seed):
         {"key": "pack/boundaries", "kind": "pack_bound", "cost": 50},
         {"key": "stager/short", "kind": "stager_short", "cost": 200},
         {"key": "stager/random", "kind": "stager_random", "cost": 400},
+    ] + [{"key": f"stager/random-long/{L}", "kind": "stager_random_long", "length": L, "cost": 300 + L // 4} for L in ((200, 500, 1000, 2000, 4000) if tier == "quick" else (200, 500, 1000, 2000, 4000, 8000, 16000))] + [
     ] + [{"key": f"staged/find/{i}", "kind": "staged", "part": i, "cost": 800} for i in range(8)] + [
     ]
     for off in (0, 1, 0x41, 0x61, 240):
@@ -192,14 +193,16 @@ def pack_case(acc, utils, n, size, order, signed):
         back = call(utils.unpack, got, size, byteorder=order, signed=signed)
         if back != n:
             acc.fail("C20/pack/unpack-not-inverse", case, n, back)
-        # partials (unsigned only, sizes that have one)
-        if not signed and size in WIDTHS:
+        # the fixed-width helpers (p8 .. u64be), unsigned by default and with signed=True
+        if size in WIDTHS:
             pn, un, pbe, ube = WIDTHS[size]
             names = (pn, un) if order == "little" else (pbe, ube)
             if names[0]:
-                g2 = call(getattr(utils, names[0]), n)
-                if g2 != exp or call(getattr(utils, names[1]), exp) != n:
-                    acc.fail("C20/pack/partial", dict(case, partial=names[0]), exp.hex(), g2 if isinstance(g2, str) else g2.hex())
+                kw = {"signed": True} if signed else {}
+                g2 = call(getattr(utils, names[0]), n, **kw)
+                b2 = call(getattr(utils, names[1]), exp, **kw)
+                if g2 != exp or b2 != n:
+                    acc.fail("C20/pack/partial", dict(case, partial=names[0] if g2 != exp else names[1]), {"packed": exp.hex(), "unpacked": n}, {"packed": g2 if isinstance(g2, str) else g2.hex(), "unpacked": b2})
     else:
         if not (isinstance(got, str) and got.startswith("EXC OverflowError")):
             acc.fail("C20/pack/out-of-range-not-overflow", case, "OverflowError", got if isinstance(got, str) else got.hex())
@@ -386,6 +389,28 @@ def chunk_stager_random(chunk, acc):
     acc.sample({"x64": True, "length": 4, "scripted_stream": 3})
 
 
+def chunk_stager_random_long(chunk, acc):
+    """Long requested lengths (the acceptance rate per candidate stays 1/256, the work per candidate grows): whatever
+    is returned satisfies the classifier and has the requested length."""
+    from dissect.cobaltstrike import utils
+
+    L = chunk["length"]
+    state = random.getstate()
+    try:
+        for sd in range(8):
+            random.seed(acc.seed * 1000 + sd * 7 + L)
+            acc.states += 1
+            acc.transitions += 1
+            got = call(utils.random_stager_uri, length=L)
+            acc.case(("long", L, sd), nontrivial=True, outcome=got[:12] if isinstance(got, str) else got)
+            ok = isinstance(got, str) and got.startswith("/") and len(got) == L + 1 and ref_x86(got)
+            if not ok:
+                acc.fail("C20/stager/random-uri-does-not-satisfy-classifier", {"kind": "random_long", "length": L, "rng_seed": acc.seed * 1000 + sd * 7 + L}, "a URI of the requested length with checksum8 92", {"uri": got[:40], "len": len(got), "checksum8": sum(got.encode("latin-1", "replace")) % 256} if isinstance(got, str) and not got.startswith("EXC") else got)
+    finally:
+        random.setstate(state)
+    acc.sample({"length": L, "rng": "random.seed(...) per call (8 seeds)", "oracle": "reference checksum8 == 92 and len == length + 1"})
+
+
 def _beacon_body(seed):
     blk = tlv.encode([(1, 1, b"\x00\x00"), (2, 1, b"\x00\x50"), (7, 3, b"\x30\x00" + b"\x00" * 30), (8, 3, b"h.example,/x\x00"), (10, 3, b"/s\x00"), (37, 2, b"\x00\x00\x00\x07")])
     blk = blk.ljust(4096, b"\x00")
@@ -482,6 +507,6 @@ def replay(case):
             return {"ok": type(got).__name__ == exp, "expected": exp, "observed": repr(got)[:100]}
         else:
             # re-run the whole (small) family the case came from
-            {"pack_auto": chunk_pack_bound, "unpack": chunk_pack_bound, "random": chunk_stager_random, "random_invalid": chunk_stager_random}[k]({}, a)
+            {"pack_auto": chunk_pack_bound, "unpack": chunk_pack_bound, "random": chunk_stager_random, "random_invalid": chunk_stager_random, "random_long": lambda c, x: chunk_stager_random_long({"length": case["length"]}, x)}[k]({}, a)
         return {"ok": not a.violations, "expected": a.violations[0]["expected"] if a.violations else None, "observed": a.violations[0]["observed"] if a.violations else None}
     raise ValueError(k)
